@@ -70,6 +70,19 @@ def transform(text):
     text = re.sub(r'\b(?:std|core)::hint::spin_loop\b', 'shuttle::hint::spin_loop', text)
     return text
 
+# files whose loops get a `sched_tick()` at the top of the body (not the per-byte kernels)
+TICK_FILES = ('engine/tables.rs', 'rate/rate_high.rs', 'rate/rate_low.rs', 'rate/rate_default.rs', 'rate/decoder_work.rs',
+              'rate/encoder_work.rs', 'lib.rs', 'reed_solomon.rs', 'decoder_result.rs', 'encoder_result.rs')
+
+def add_ticks(text):
+    out = []
+    for line in text.split('\n'):
+        out.append(line)
+        if re.match(r'^\s*(for\s.+\sin\s.+|while\s.+|loop)\s*\{\s*$', line) and 'const ' not in line:
+            indent = re.match(r'^(\s*)', line).group(1)
+            out.append(indent + '    crate::verif::sched_tick();')
+    return '\n'.join(out)
+
 def main():
     changed = 0
     wanted = set()
@@ -80,7 +93,12 @@ def main():
             wanted.add(rel)
             data = open(p, 'rb').read()
             if f.endswith('.rs') and rel != 'verif.rs':
-                data = transform(data.decode()).encode()
+                text = transform(data.decode())
+                if rel in TICK_FILES:
+                    # only outside #[cfg(test)] modules (they are not compiled here, but keep them untouched)
+                    head, sep, tail = text.partition('#[cfg(test)]')
+                    text = add_ticks(head) + sep + tail
+                data = text.encode()
             q = os.path.join(DST, rel)
             os.makedirs(os.path.dirname(q), exist_ok=True)
             if not os.path.exists(q) or open(q, 'rb').read() != data:
